@@ -708,9 +708,34 @@ fn mode_args(_args: &[String]) {
         } else {
             reemit
         };
+        // metamorphic: blanks around the `=` of a `name = expr` argument are insignificant (`al=-x` is `al = -x`)
+        let alias = {
+            let first = Punctuated::<syn::Expr, syn::Token![,]>::parse_terminated
+                .parse2(ts.clone())
+                .ok()
+                .and_then(|p| p.first().map(|e| e.to_token_stream().to_string()));
+            match first {
+                Some(e) if !e.trim_start().starts_with('=') => {
+                    let spaced = format!("#[display(\"{{al}}\", al = {})] struct S {{ __probe: u8 }}", e);
+                    let tight = format!("#[display(\"{{al}}\", al={})] struct S {{ __probe: u8 }}", e.trim_start());
+                    match (expand_one("Display", &spaced), expand_one("Display", &tight)) {
+                        (Exp::Ok(a), Exp::Ok(b)) => {
+                            let fa = a.parse::<TokenStream>().map(flat).unwrap_or_default();
+                            let fb = b.parse::<TokenStream>().map(flat).unwrap_or_default();
+                            if fa == fb { "same" } else { "differs" }
+                        }
+                        (Exp::Err(_), Exp::Err(_)) => "same",
+                        (Exp::Panic(_), _) | (_, Exp::Panic(_)) => "panic",
+                        _ => "differs",
+                    }
+                }
+                _ => "na",
+            }
+        };
         let body = match got {
             Ok(Ok(v)) => format!(
-                "\"kind\":\"ok\",\"probe\":\"{}\",\"reemit\":\"{}\",\"flags\":\"{}\",\"snap\":{},\"got\":[{}],\"want\":[{}]",
+                "\"kind\":\"ok\",\"alias\":\"{}\",\"probe\":\"{}\",\"reemit\":\"{}\",\"flags\":\"{}\",\"snap\":{},\"got\":[{}],\"want\":[{}]",
+                alias,
                 probe,
                 reemit,
                 flags,
